@@ -217,6 +217,25 @@ def judge(model, decoy=True, light=False):
                     if [x[:3] for x in g] == [x[:3] for x in w]:
                         aspect = "flags" if [x[3] for x in g] != [x[3] for x in w] else "code"
                     bad("methods:%s:%s" % (kind, aspect), "%s %s methods %r != %r" % (n, kind, g, w))
+            # register layout derived from the declared counts and the descriptor (get_information): parameters occupy the LAST
+            # registers, long/double take two, everything else - arrays of long/double included - takes one
+            for m in pc.get_methods():
+                mm = [x for x in mc.dmethods + mc.vmethods if (x.name, descr(x.params, x.ret)) == (m.get_name(), m.get_descriptor())]
+                if not mm or mm[0].code is None:
+                    continue
+                regs = mm[0].code.registers
+                sizes = [2 if p_ in ("J", "D") else 1 for p_ in mm[0].params]
+                want = {"return": _jtype(mm[0].ret), "registers": (0, regs - sum(sizes) - 1)}
+                if sizes:
+                    want["params"] = []
+                    r = regs - sum(sizes)
+                    for p_, z in zip(mm[0].params, sizes):
+                        want["params"].append((r, _jtype(p_)))
+                        r += z
+                info = m.get_information()
+                if info != want:
+                    bad("methods:get_information" + (":array-of-wide-param" if any(p_.startswith("[") and p_.lstrip("[") in ("J", "D") for p_ in mm[0].params) else ""),
+                        "%s->%s%s get_information %r != %r" % (n, m.get_name(), m.get_descriptor(), info, want))
             allf = [(n, f.name, f.type) for f in mc.sfields + mc.ifields]
             allm = [(n, m.name, descr(m.params, m.ret)) for m in mc.dmethods + mc.vmethods]
             g = sorted((f.get_class_name(), f.get_name(), f.get_descriptor()) for f in pc.get_fields())
@@ -337,6 +356,15 @@ def judge(model, decoy=True, light=False):
     return out
 
 
+_PRIM = {"V": "void", "Z": "boolean", "B": "byte", "S": "short", "C": "char", "I": "int", "J": "long", "F": "float", "D": "double"}
+
+
+def _jtype(t):
+    dims = len(t) - len(t.lstrip("["))
+    e = t.lstrip("[")
+    return (_PRIM[e] if e in _PRIM else e[1:-1].replace("/", ".")) + "[]" * dims
+
+
 def mc_has_data(mc):
     return not mc.no_class_data and bool(mc.sfields or mc.ifields or mc.dmethods or mc.vmethods)
 
@@ -351,7 +379,7 @@ def shards(ctx):
 
 def space(ctx):
     n1 = sum(1 for _ in one_class_models(ctx))
-    return {"one_class_models": n1, "two_class_files": 900, "special": ["no class", "class without class_data", "colliding lookup keys"],
+    return {"one_class_models": n1, "two_class_files": 900, "special": ["no class", "class without class_data", "colliding lookup keys", "parameters that are arrays of long/double"],
             "member_alphabets": "static {a:I,c:J} instance {b:[Lx/Y;,d:String} direct {<init>,s(IJ)I,p} virtual {m(),m(I),abs,nat}",
             "class_level": "super x interfaces x flags x source x code shape = 128"}
 
@@ -383,6 +411,13 @@ def special_models():
     return {
         "noclass": G.Dex([], extra_strings=["x"]),
         "no_class_data": G.Dex([G.Class("La/E;", no_class_data=True)]),
+        # parameters that are arrays of wide primitives (one register each) mixed with wide primitives (two registers each)
+        "wide_arrays": G.Dex([G.Class("La/W;", dmethods=[
+            G.Method("w1", "V", ("[J",), G.ACC_STATIC, G.Code(3, 1, 0, b"\x0e\x00")),
+            G.Method("w2", "J", ("[J", "D", "[[D", "I"), G.ACC_STATIC, G.Code(9, 5, 0, b"\x12\x00\x10\x00")),
+            G.Method("w3", "V", ("J", "[D", "J"), G.ACC_STATIC, G.Code(6, 5, 0, b"\x0e\x00")),
+            G.Method("w4", "[[J", ("[Ljava/lang/String;", "[[J", "D"), G.ACC_STATIC, G.Code(5, 4, 0, b"\x12\x00\x11\x00"))],
+            vmethods=[G.Method("v1", "V", ("[D", "[J"), G.ACC_PUBLIC, G.Code(4, 3, 0, b"\x0e\x00"))])]),
         "collide": G.Dex([G.Class("La/C;", ifields=[G.Field("x", "LLa;"), G.Field("xL", "La;"), G.Field("x", "I")],
                                   vmethods=[G.Method("m", "V", ("I",), 1, G.Code(3, 2, 0, b"\x0e\x00")),
                                             G.Method("m", "V", ("J",), 1, G.Code(4, 3, 0, b"\x0e\x00"))])]),
